@@ -198,4 +198,14 @@ structure Cluster (T : Topo) : Prop extends NetWF T where
 /-- the endpoint is listed, on every node, as a member of the zone it belongs to -/
 def Member (T : Topo) (e : Ep) : Prop := ∀ x, e ∈ T.eps x (T.zoneOf e)
 
+/-- "the zone masters are connected to their zone peers and to one endpoint of each directly related zone": two
+    different members of one zone see each other (with at most two members per zone that is master and peer), and the
+    member with the smallest name of a zone reaches at least one member of every parent / child zone that has members
+    (symmetry of `conn` is part of `Cluster`). -/
+structure MastersConnected (T : Topo) : Prop where
+  peers : ∀ a b, Member T a → Member T b → T.zoneOf a = T.zoneOf b → a ≠ b → T.conn a b = true
+  cross : ∀ m Z', Member T m → (∀ x, Member T x → T.zoneOf x = T.zoneOf m → m ≤ x) →
+    (T.parent Z' = some (T.zoneOf m) ∨ T.parent (T.zoneOf m) = some Z') →
+    (∃ x, Member T x ∧ T.zoneOf x = Z') → ∃ e', Member T e' ∧ T.zoneOf e' = Z' ∧ T.conn m e' = true
+
 end Icinga.C11
